@@ -132,6 +132,8 @@ func main() {
 		modeC02()
 	case "c05":
 		modeC05()
+	case "c04":
+		modeC04()
 	default:
 		res.InfraError("unknown mode %s", mode)
 	}
@@ -153,6 +155,10 @@ func replayMode() {
 	p, err := prepare(rp.Case)
 	if err != nil {
 		res.InfraError("prepare: %v", err)
+		return
+	}
+	if rp.Mode == "c04" {
+		replayC04(p, rp)
 		return
 	}
 	env := envFor(rp.Mode, p, rp.Extra)
